@@ -8,11 +8,31 @@ package suites
 //	               pushed through Client.Send and a PING is sent by the peer, so that the
 //	               lines the client wrote for this round are exactly those in front of the
 //	               PONG.
-//	cap.ackremoval as cap.session, ACK lines may carry "-name" tokens (capability removal
-//	               acknowledgements); NOT part of conf/C08.json, see notes/findings-cap-sts.md.
+//	cap.enum       as cap.session; the fixed part is the COMPLETE set of sessions of at most 3
+//	               steps over a 9-letter alphabet of server lines (incl. a reconnect) under 3
+//	               configurations; the generated part draws longer sequences over the alphabet.
+//	cap.ackremoval as cap.session, but the generated ACK lines may carry "-name" tokens
+//	               (IRCv3: the server acknowledges that the capability was DISABLED).
+//
+// REQ safety is judged per negotiation round: a name in a CAP REQ must be "on offer", i.e.
+// listed by an LS/NEW line since the last line that concluded a round (ACK or NAK) and not
+// named by a DEL since.  The current code prunes tmpCap on ACK only; a name that is not on
+// offer but was listed since the last ACK (it survived a NAK or a DEL) is reported under the
+// narrow class tmpcap-not-pruned (finding, notes/proposed-fixes/cap-tmpcap-prune.diff); a name
+// that survived an ACK, or was never listed, under req-unadvertised.  After an ACK answered by
+// END or AUTHENTICATE tmpCap must be empty (class tmpcap-not-cleared, through VerifCapState).
+//
+// The oracle keeps two ledgers of "acknowledged and not since deleted": the IRCv3 reading
+// (a "-name" token removes name) and the literal one (every token is a name).  The property
+// is judged against the first; where the implementation differs from it but agrees with the
+// second, the failure is reported under the narrow class ack-removal-ignored (known finding,
+// notes/proposed-fixes/cap-ack-removal.diff), any other difference under hascap-mismatch /
+// tags-ungated / auth-unconfigured.
 //
 // A session case is: cfg bits, SupportedCaps, probe names, then one argument per CAP event
-// (its Params joined by LF).
+// (its Params joined by LF).  The argument "\x01reconnect" is not an event: the client is
+// closed and connected again (same Client, new pipe), which must start from empty
+// tmpCap / enabledCap ("advertised earlier on THIS connection").
 
 import (
 	"bufio"
@@ -268,6 +288,14 @@ func startCapSession(cc capCfg) *capSession {
 		s.upg++
 		s.umu.Unlock()
 	})
+	s.connect()
+	return s
+}
+
+// connect runs MockConnect on a fresh pipe and waits for the registration burst; the lines
+// of all connections of the session accumulate in s.lines.
+func (s *capSession) connect() {
+	mark := len(s.snapshot())
 	in, out := net.Pipe()
 	s.peer = in
 	go func() {
@@ -286,7 +314,7 @@ func startCapSession(cc capCfg) *capSession {
 	}()
 	go func() { s.done <- s.c.MockConnect(out) }()
 	s.waitFor(func(l []string) bool {
-		for _, x := range l {
+		for _, x := range l[mark:] {
 			if strings.HasPrefix(x, "USER ") {
 				return true
 			}
@@ -297,8 +325,26 @@ func startCapSession(cc capCfg) *capSession {
 	for !s.c.IsConnected() && time.Now().Before(dl) {
 		time.Sleep(200 * time.Microsecond)
 	}
-	return s
 }
+
+// reconnect closes the client, waits for Connect to return and connects again.
+func (s *capSession) reconnect() bool {
+	s.c.Close()
+	select {
+	case <-s.done:
+	case <-time.After(20 * time.Second):
+		return false
+	}
+	s.peer.Close()
+	dl := time.Now().Add(20 * time.Second)
+	for s.c.IsConnected() && time.Now().Before(dl) {
+		time.Sleep(200 * time.Microsecond)
+	}
+	s.connect()
+	return true
+}
+
+const capReconnect = "\x01reconnect"
 
 func (s *capSession) upgrades() int {
 	s.umu.Lock()
@@ -342,7 +388,7 @@ var builtinCapSet = func() map[string]bool {
 	return m
 }()
 
-func runCapSession(c Case, removalAware bool) Result {
+func runCapSession(c Case) Result {
 	if len(c) < 3 {
 		return Result{Obs: "?short-case"}
 	}
@@ -354,14 +400,20 @@ func runCapSession(c Case, removalAware bool) Result {
 	events := c[3:]
 
 	s := startCapSession(cc)
-	defer func() {
+	closed := false
+	cleanup := func() {
+		if closed {
+			return
+		}
+		closed = true
 		s.c.Close()
 		select {
 		case <-s.done:
 		case <-time.After(20 * time.Second):
 		}
 		s.peer.Close()
-	}()
+	}
+	defer cleanup()
 
 	var obs strings.Builder
 	var oracle string
@@ -371,26 +423,30 @@ func runCapSession(c Case, removalAware bool) Result {
 		}
 	}
 	sigs := map[string]bool{}
+	deferred := ""
 
 	// registration burst
+	checkReg := func(reg []string) {
+		idx := func(prefix string) int {
+			for i, l := range reg {
+				if strings.HasPrefix(l, prefix) {
+					return i
+				}
+			}
+			return -1
+		}
+		ls, nick, user := idx("CAP LS 302"), idx("NICK "), idx("USER ")
+		if cc.noTracking {
+			if ls >= 0 {
+				fail("ls-order", "CAP LS sent although tracking is disabled")
+			}
+		} else if !(ls >= 0 && nick > ls && user > nick) {
+			fail("ls-order", "registration burst %q does not put CAP LS 302 before NICK and USER", reg)
+		}
+	}
 	reg := s.snapshot()
 	obs.WriteString("reg=" + HexList(reg))
-	idx := func(prefix string) int {
-		for i, l := range reg {
-			if strings.HasPrefix(l, prefix) {
-				return i
-			}
-		}
-		return -1
-	}
-	ls, nick, user := idx("CAP LS 302"), idx("NICK "), idx("USER ")
-	if cc.noTracking {
-		if ls >= 0 {
-			fail("ls-order", "CAP LS sent although tracking is disabled")
-		}
-	} else if !(ls >= 0 && nick > ls && user > nick) {
-		fail("ls-order", "registration burst %q does not put CAP LS 302 before NICK and USER", reg)
-	}
+	checkReg(reg)
 	poss := s.c.VerifPossibleCaps()
 	obs.WriteString("|poss=" + HexList(poss))
 
@@ -411,11 +467,64 @@ func runCapSession(c Case, removalAware bool) Result {
 		return false
 	}
 	advertised := map[string]bool{}
-	ledger := map[string]bool{} // acknowledged and not since deleted (exact tokens)
-	removed := map[string]bool{}
+	offered := map[string]bool{}    // listed since the last ACK/NAK and not deleted since
+	offeredLit := map[string]bool{} // listed since the last ACK (what an unpruned tmpCap explains)
+	ledger := map[string]bool{}     // acknowledged and not since deleted / disabled (IRCv3 reading)
+	ledgerLit := map[string]bool{}  // the same with "-name" read as a capability name
+	lookup := func(l map[string]bool, name string) bool {
+		for t := range l {
+			if asciiLower(t) == asciiLower(name) {
+				return true
+			}
+		}
+		return false
+	}
 	ended := false
 
+	probeAll := func(k int) {
+		obs.WriteString(";h=")
+		for _, p := range probes {
+			has, panicked := safeHasCap(s.c, p)
+			if panicked {
+				obs.WriteByte('!')
+				if !cc.noTracking {
+					fail("hascap-panic", "HasCapability(%q) panicked with tracking enabled", p)
+				}
+				continue
+			}
+			obs.WriteString(B(has))
+			if want := lookup(ledger, p); has != want {
+				if has == lookup(ledgerLit, p) {
+					fail("ack-removal-ignored", "round %d: HasCapability(%q)=%v; with \"-name\" in CAP ACK read as the acknowledged removal of name it must be %v", k, p, has, want)
+				} else {
+					fail("hascap-mismatch", "round %d: HasCapability(%q)=%v, acknowledged and not deleted=%v", k, p, has, want)
+				}
+			}
+		}
+	}
+
 	for k, ev := range events {
+		if ev == capReconnect {
+			mark := len(s.snapshot())
+			if !s.reconnect() {
+				fail("stall", "round %d: Connect did not return after Close", k)
+				obs.WriteString("|c:?")
+				break
+			}
+			// a new connection: nothing advertised, nothing acknowledged
+			advertised = map[string]bool{}
+			offered = map[string]bool{}
+			offeredLit = map[string]bool{}
+			ledger = map[string]bool{}
+			ledgerLit = map[string]bool{}
+			reg := s.snapshot()[mark:]
+			checkReg(reg)
+			tmp, en := s.c.VerifCapState()
+			obs.WriteString("|c:reg=" + HexList(reg) + ";t=" + HexList(tmp) + ";e=" + HexList(en))
+			probeAll(k)
+			sigs["reconnect"] = true
+			continue
+		}
 		params := strings.Split(ev, "\n")
 		mark := len(s.snapshot())
 		upBefore := s.upgrades()
@@ -432,19 +541,27 @@ func runCapSession(c Case, removalAware bool) Result {
 			case (sub == "LS" || sub == "NEW") && len(params) >= 3:
 				for _, tok := range strings.Split(last, " ") {
 					advertised[capTokenName(tok)] = true
+					offered[capTokenName(tok)] = true
+					offeredLit[capTokenName(tok)] = true
 				}
+			case sub == "NAK" && len(params) >= 2:
+				offered = map[string]bool{}
 			case sub == "ACK" && len(params) == 3:
+				offered = map[string]bool{}
+				offeredLit = map[string]bool{}
 				for _, tok := range strings.Split(last, " ") {
-					ledger[tok] = true
-					if removalAware && strings.HasPrefix(tok, "-") && len(tok) > 1 {
-						removed[tok[1:]] = true
+					ledgerLit[tok] = true
+					if strings.HasPrefix(tok, "-") {
+						delete(ledger, tok[1:])
 					} else {
-						delete(removed, tok)
+						ledger[tok] = true
 					}
 				}
 			case sub == "DEL" && len(params) >= 2:
 				for _, tok := range strings.Split(last, " ") {
 					delete(ledger, capTokenName(tok))
+					delete(ledgerLit, capTokenName(tok))
+					delete(offered, capTokenName(tok))
 				}
 			}
 		}
@@ -541,7 +658,11 @@ func runCapSession(c Case, removalAware bool) Result {
 			if got {
 				wantTag := k%4 < 2 && ledger["message-tags"]
 				if tagged != wantTag {
-					fail("tags-ungated", "round %d: tag section present=%v, message-tags acknowledged=%v", k, tagged, ledger["message-tags"])
+					if tagged == (k%4 < 2 && ledgerLit["message-tags"]) {
+						fail("ack-removal-ignored", "round %d: tag section present=%v although the server acknowledged the removal of message-tags (ACK :-message-tags)", k, tagged)
+					} else {
+						fail("tags-ungated", "round %d: tag section present=%v, message-tags acknowledged=%v", k, tagged, ledger["message-tags"])
+					}
 				}
 			}
 		}
@@ -562,14 +683,24 @@ func runCapSession(c Case, removalAware bool) Result {
 		if !ended {
 			obs.WriteString(";t=" + HexList(tmp) + ";e=" + HexList(en) + ";g=" + B(tagged))
 		}
+		// ---- oracle: an acknowledged round leaves nothing pending
+		// (internal state: reported only when nothing on the wire fails later in the session)
+		if !ended && !cc.noTracking && sub == "ACK" && len(params) == 3 && len(tmp) != 0 && deferred == "" {
+			deferred = fmt.Sprintf("tmpcap-not-cleared: round %d: tmpCap=%q after the ACK that concluded the round (answered by %v)", k, tmp, outs)
+		}
 
 		// ---- oracle: REQ safety
 		for _, l := range wrote {
 			if strings.HasPrefix(l, "CAP REQ") {
 				rest := strings.TrimPrefix(strings.TrimPrefix(strings.TrimPrefix(l, "CAP REQ"), " "), ":")
 				for _, tok := range strings.Split(rest, " ") {
-					if !advertised[tok] {
+					switch {
+					case !advertised[tok]:
 						fail("req-unadvertised", "round %d requests %q which no LS/NEW of this connection listed", k, tok)
+					case !offered[tok] && !offeredLit[tok]:
+						fail("req-unadvertised", "round %d requests %q which no LS/NEW line of this round listed (it was advertised before an ACK concluded that round)", k, tok)
+					case !offered[tok]:
+						fail("tmpcap-not-pruned", "round %d requests %q which is no longer on offer: its listing was answered by a NAK, or it was deleted since", k, tok)
 					}
 					if !supported(tok) {
 						fail("req-unsupported", "round %d requests %q which the configuration does not support", k, tok)
@@ -615,7 +746,11 @@ func runCapSession(c Case, removalAware bool) Result {
 				fail("round-open", "round %d: LS answered by %v", k, outs)
 			}
 			if strings.HasPrefix(strings.Join(outs, ","), "AUTH:") && (cc.sasl == "" || !ledger["sasl"]) {
-				fail("auth-unconfigured", "round %d: AUTHENTICATE without SASL configured and acknowledged", k)
+				if cc.sasl != "" && ledgerLit["sasl"] {
+					fail("ack-removal-ignored", "round %d: AUTHENTICATE although the server acknowledged the removal of sasl", k)
+				} else {
+					fail("auth-unconfigured", "round %d: AUTHENTICATE without SASL configured and acknowledged", k)
+				}
 			}
 			sigs[sub+fmt.Sprint(capMin(len(params), 5))+"/"+strings.SplitN(strings.Join(outs, ","), ":", 2)[0]] = true
 		} else {
@@ -624,46 +759,44 @@ func runCapSession(c Case, removalAware bool) Result {
 
 		// ---- HasCapability probes
 		if !ended {
-			obs.WriteString(";h=")
-			for _, p := range probes {
-				has, panicked := safeHasCap(s.c, p)
-				if panicked {
-					obs.WriteByte('!')
-					if !cc.noTracking {
-						fail("hascap-panic", "HasCapability(%q) panicked with tracking enabled", p)
-					}
-					continue
-				}
-				obs.WriteString(B(has))
-				want := false
-				for t := range ledger {
-					if asciiLower(t) == asciiLower(p) {
-						want = true
-					}
-				}
-				if has != want {
-					fail("hascap-mismatch", "round %d: HasCapability(%q)=%v, acknowledged and not deleted=%v", k, p, has, want)
-				}
-				if removalAware && has {
-					for rname := range removed {
-						if asciiLower(rname) == asciiLower(p) {
-							fail("ack-removal-ignored", "round %d: HasCapability(%q)=true after the server acknowledged its removal (ACK :-%s)", k, p, rname)
-						}
-					}
-				}
-			}
+			probeAll(k)
 		}
 		if ended {
 			break
 		}
 	}
+	// after the connection is gone HasCapability is false for every name (enabledCap itself
+	// is only cleared by the next connect)
+	cleanup()
+	dl := time.Now().Add(20 * time.Second)
+	for s.c.IsConnected() && time.Now().Before(dl) {
+		time.Sleep(200 * time.Microsecond)
+	}
+	obs.WriteString("|x=")
+	for _, p := range probes {
+		has, panicked := safeHasCap(s.c, p)
+		switch {
+		case panicked:
+			obs.WriteByte('!')
+		default:
+			obs.WriteString(B(has))
+			if has {
+				fail("hascap-disconnected", "HasCapability(%q)=true on a client that is not connected", p)
+			}
+		}
+	}
+
+	if oracle == "" {
+		oracle = deferred
+	}
+
 	keys := make([]string, 0, len(sigs))
 	for k := range sigs {
 		keys = append(keys, k)
 	}
 	sort.Strings(keys)
-	if len(keys) > 4 {
-		keys = keys[:4]
+	if len(keys) > 6 {
+		keys = keys[:6]
 	}
 	return Result{Obs: obs.String(), Oracle: oracle, Sig: c[0] + "/" + strings.Join(keys, "+")}
 }
@@ -798,8 +931,64 @@ func genCapEvents(r *rand.Rand, removal bool) []string {
 				add("*", "LS", "*", "*", genCapAdvert(r, removal))
 			}
 		}
+		if r.Intn(10) == 0 {
+			evs = append(evs, capReconnect)
+			lastAdvert = nil
+		}
 	}
 	return evs
+}
+
+// genCapSecondRound: a first round that is acknowledged (with SASL configured and sasl
+// acknowledged the client starts AUTHENTICATE instead of sending CAP END), then the
+// cap-notify traffic of a registered connection: DEL / NEW / LS again, each NEW possibly
+// acknowledged or refused.
+func genCapSecondRound(r *rand.Rand) (string, []string) {
+	bits := Pick(r, "S", "S", "X", "SD", "")
+	var evs []string
+	add := func(params ...string) { evs = append(evs, strings.Join(params, "\n")) }
+	pool := []string{"multi-prefix", "away-notify", "cap-notify", "message-tags", "batch", "server-time", "account-tag", "chghost"}
+	r.Shuffle(len(pool), func(i, j int) { pool[i], pool[j] = pool[j], pool[i] })
+	first := append([]string{}, pool[:1+r.Intn(3)]...)
+	if r.Intn(8) > 0 {
+		first = append(first, Pick(r, "sasl", "sasl=PLAIN,EXTERNAL"))
+	}
+	r.Shuffle(len(first), func(i, j int) { first[i], first[j] = first[j], first[i] })
+	if len(first) > 1 && r.Intn(3) == 0 {
+		add("*", "LS", "*", strings.Join(first[:1], " "))
+		add("*", "LS", strings.Join(first[1:], " "))
+	} else {
+		add("*", "LS", strings.Join(first, " "))
+	}
+	names := make([]string, len(first))
+	for i, f := range first {
+		names[i] = capTokenName(f)
+	}
+	switch r.Intn(8) {
+	case 0:
+		add("me", "NAK", strings.Join(names, " "))
+	default:
+		add("me", "ACK", strings.Join(names, " "))
+	}
+	rest := pool[3:]
+	for n := 1 + r.Intn(3); n > 0; n-- {
+		if r.Intn(2) == 0 {
+			add("me", "DEL", Pick(r, names...))
+		}
+		nw := Pick(r, rest...)
+		if r.Intn(4) == 0 {
+			nw += " " + Pick(r, rest...)
+		}
+		add("me", Pick(r, "NEW", "NEW", "NEW", "LS"), nw)
+		switch r.Intn(4) {
+		case 0:
+			add("me", "NAK", nw)
+		case 1:
+		default:
+			add("me", "ACK", nw)
+		}
+	}
+	return bits, evs
 }
 
 func genCapAckList(r *rand.Rand, advert []string, removal bool) string {
@@ -835,6 +1024,9 @@ func capSessionProbes(evs []string) string {
 		}
 	}
 	for _, ev := range evs {
+		if ev == capReconnect {
+			continue
+		}
 		p := strings.Split(ev, "\n")
 		for _, tok := range strings.Split(p[len(p)-1], " ") {
 			n := capTokenName(tok)
@@ -858,11 +1050,15 @@ func capSessionSuite(name string, removal bool, fixed func() []Case) *Suite {
 		Prop:  []string{"C08"},
 		Fixed: fixed,
 		Gen: func(r *rand.Rand) Case {
+			if r.Intn(6) == 0 {
+				bits, evs := genCapSecondRound(r)
+				return append(Case{bits, "", capSessionProbes(evs)}, evs...)
+			}
 			bits, sup := genCapSessionCfg(r)
 			evs := genCapEvents(r, removal)
 			return append(Case{bits, sup, capSessionProbes(evs)}, evs...)
 		},
-		Run: func(c Case) Result { return runCapSession(c, removal) },
+		Run: func(c Case) Result { return runCapSession(c) },
 	}
 }
 
@@ -888,6 +1084,13 @@ func init() {
 			{"T", "", "multi-prefix", ev("*", "LS", "multi-prefix"), ev("me", "ACK", "multi-prefix")},
 			{"", "", "a", ev("me", "ACK", "multi-prefix "), ev("me", "ACK", ""), ev("me", "DEL", "")},
 			{"", "", "multi-prefix", ev("*", "LS", "multi-prefix multi-prefix=x multi-prefix"), ev("me", "ACK", "multi-prefix multi-prefix")},
+			// a second round after the ACK that started authentication (cap-notify): only what the new listing offers
+			{"S", "", "sasl multi-prefix away-notify", ev("*", "LS", "cap-notify multi-prefix sasl"), ev("me", "ACK", "cap-notify multi-prefix sasl"), ev("me", "DEL", "multi-prefix"), ev("me", "NEW", "away-notify"), ev("me", "ACK", "away-notify")},
+			{"X", "", "sasl batch", ev("*", "LS", "*", "sasl=EXTERNAL"), ev("*", "LS", "batch"), ev("me", "ACK", "batch sasl"), ev("me", "NEW", "server-time"), ev("me", "NAK", "server-time"), ev("me", "NEW", "chghost")},
+			// reconnects: nothing advertised or acknowledged on the old connection survives
+			{"", "", "multi-prefix away-notify batch", ev("*", "LS", "*", "multi-prefix"), capReconnect, ev("*", "LS", "away-notify"), ev("me", "ACK", "away-notify"), capReconnect, ev("me", "NEW", "batch"), ev("me", "ACK", "batch")},
+			{"S", "", "sasl message-tags", ev("*", "LS", "sasl message-tags"), ev("me", "ACK", "sasl message-tags"), capReconnect, capReconnect, ev("*", "LS", "")},
+			{"T", "", "multi-prefix", ev("*", "LS", "multi-prefix"), capReconnect, ev("me", "ACK", "multi-prefix")},
 		}
 	}))
 	Register(capSessionSuite("cap.ackremoval", true, func() []Case {
@@ -895,4 +1098,59 @@ func init() {
 			{"", "", "away-notify -away-notify", ev("*", "LS", "away-notify"), ev("me", "ACK", "away-notify"), ev("me", "ACK", "-away-notify")},
 		}
 	}))
+}
+
+// ---- cap.enum: complete enumeration of short sessions
+
+var capEnumAlphabet = func() []string {
+	ev := func(p ...string) string { return strings.Join(p, "\n") }
+	return []string{
+		ev("*", "LS", "*", "multi-prefix sts=port=6697"), // continuation line
+		ev("*", "LS", "sasl message-tags"),               // final line
+		ev("*", "LS", "unknown-cap"),                     // nothing usable by itself
+		ev("me", "ACK", "sasl message-tags"),
+		ev("me", "ACK", "multi-prefix sts"),
+		ev("me", "NAK", "sasl"),
+		ev("me", "NEW", "batch"),
+		ev("me", "DEL", "message-tags batch"),
+		capReconnect,
+	}
+}()
+
+var capEnumConfigs = []string{"", "S", "SD"}
+
+const capEnumProbes = "sasl SASL message-tags multi-prefix batch sts"
+
+func init() {
+	Register(&Suite{
+		Name: "cap.enum",
+		Prop: []string{"C08"},
+		Exhaustive: "every sequence of at most 3 steps over 9 server lines (LS continuation, LS final, LS with nothing usable, " +
+			"two ACKs, NAK, NEW, DEL, reconnect) under the configurations {default, SASL, SASL+DisableSTS}: 3 x 820 sessions",
+		Fixed: func() []Case {
+			var out []Case
+			var rec func(prefix []string, depth int)
+			for _, bits := range capEnumConfigs {
+				rec = func(prefix []string, depth int) {
+					out = append(out, append(Case{bits, "", capEnumProbes}, prefix...))
+					if depth == 3 {
+						return
+					}
+					for _, a := range capEnumAlphabet {
+						rec(append(append([]string(nil), prefix...), a), depth+1)
+					}
+				}
+				rec(nil, 0)
+			}
+			return out
+		},
+		Gen: func(r *rand.Rand) Case {
+			c := Case{Pick(r, capEnumConfigs...), "", capEnumProbes}
+			for n := 4 + r.Intn(4); n > 0; n-- {
+				c = append(c, Pick(r, capEnumAlphabet...))
+			}
+			return c
+		},
+		Run: func(c Case) Result { return runCapSession(c) },
+	})
 }
